@@ -51,6 +51,9 @@ class Gen:
         self.nscopes = 1
         # what has been provided so far, per scope: list of (ty, name) and groups (elem, group)
         self.provided = []       # (scope, ty, name)
+        self.resolvable = []     # (scope, ty, name): provided by a constructor whose own dependencies looked resolvable
+        self.parents = [None]    # parent of each scope
+        self._deps_ok = True
         self.groups_fed = []     # (scope, elem, group)
         self.invokers = []
 
@@ -99,9 +102,26 @@ class Gen:
         return 30
 
     # ---- parameters
-    def gen_single_param(self, level):
-        """returns (GoT or field-spec).  Prefer keys that exist."""
+    def anc(self, s):
+        out = []
+        while s is not None:
+            out.append(s)
+            s = self.parents[s]
+        return out
+
+    def gen_single_param(self, level, scope=None, optional=False):
+        """returns (ty, name).  Prefer keys that are resolvable from `scope`."""
         r = self.r
+        if scope is not None and self.resolvable and r.random() < self.w.get("resolvable", 0.92):
+            a = set(self.anc(scope))
+            cands = [(t, n) for (sc, t, n) in self.resolvable if sc in a]
+            if level is not None and not self.p("backedge"):
+                low = [c for c in cands if c[0] in PT and PT.index(c[0]) < max(level, 1)]
+                cands = low or (cands if level == 0 and False else [])
+            if cands:
+                return r.choice(cands)
+        if not optional:
+            self._deps_ok = False
         if self.provided and r.random() < 0.7:
             cands = [(t, n) for (_, t, n) in self.provided]
             if level is not None and not self.p("backedge"):
@@ -110,7 +130,7 @@ class Gen:
             return r.choice(cands)
         return (self.pick_type(level, self.p("backedge")), self.pick_name())
 
-    def gen_params(self, level, n=None, allow_soft=True):
+    def gen_params(self, level, n=None, allow_soft=True, scope=None):
         r = self.r
         ins = []
         n = r.choice([0, 1, 1, 2, 2, 3]) if n is None else n
@@ -140,12 +160,13 @@ class Gen:
                 elif c < self.w["group"] + 0.12 and depth < 2:
                     fs.append(self.field(fname(), obj(depth + 1)))
                 else:
-                    (t, nm) = self.gen_single_param(level)
+                    optv = r.choice(["true", "true", "1", "T", "false"]) if self.p("optional") else None
+                    (t, nm) = self.gen_single_param(level, scope, optional=optv not in (None, "false"))
                     tags = {}
                     if nm:
                         tags["name"] = nm
-                    if self.p("optional"):
-                        tags["optional"] = r.choice(["true", "true", "1", "T", "false"])
+                    if optv is not None:
+                        tags["optional"] = optv
                     fs.append(self.field(fname(), u(t), tags))
             # sometimes put In last / in the middle
             if r.random() < 0.2:
@@ -156,7 +177,7 @@ class Gen:
             if self.p("obj_param"):
                 ins.append(obj(0))
             else:
-                (t, nm) = self.gen_single_param(level)
+                (t, nm) = self.gen_single_param(level, scope)
                 if nm:
                     # a named dependency needs an object
                     ins.append(self.st([self.in_field(), self.field("F1", u(t), {"name": nm})]))
@@ -320,9 +341,15 @@ class Gen:
         return opts
 
     # ---- ops
-    def record_results(self, scope, outs, opts, export):
+    def record_results(self, scope, outs, opts, export, deps_ok=False):
         """remember (roughly) what a provide makes available, to bias later consumers"""
         sc = 0 if export else scope
+        n0 = len(self.provided)
+        self._record(sc, outs, opts)
+        if deps_ok:
+            self.resolvable.extend(self.provided[n0:])
+
+    def _record(self, sc, outs, opts):
 
         def walk(t, name, group, as_):
             if "u" in t:
@@ -359,12 +386,14 @@ class Gen:
             outs = [u(t)]
             opts = {"name": nm, "group": "", "as": [], "opts": (["name"] if nm else [])}
             lvl = PT.index(t) if t in PT else None
-            ins = self.gen_params(lvl, r.choice([0, 0, 1]))
+            self._deps_ok = True
+            ins = self.gen_params(lvl, r.choice([0, 0, 1]), scope=scope)
             fid = self.new_fn(ins, outs)
         else:
             level = r.randrange(0, len(PT))
             outs, opts = self.gen_results(level)
-            ins = self.gen_params(level)
+            self._deps_ok = True
+            ins = self.gen_params(level, r.choice([0, 0, 1, 1, 2, 3]), scope=scope)
             variadic = False
             if r.random() < 0.06:
                 ins.append(u(self.slice_of(r.choice(PT))))
@@ -383,7 +412,7 @@ class Gen:
         op = {"op": "provide", "scope": scope, "fn": fid, "name": opts["name"], "group": opts["group"], "as": opts["as"],
               "export": export, "cb": self.p("cb"), "info": r.random() < 0.7, "opts": sorted(set(opts["opts"]))}
         self.ops.append(op)
-        self.record_results(scope, outs, opts, export)
+        self.record_results(scope, outs, opts, export, deps_ok=self._deps_ok and "nonfunc" not in self.fns[fid - 1])
         # occasionally provide the very same function again (same or other scope)
         if r.random() < 0.06:
             op2 = dict(op); op2["scope"] = r.randrange(0, self.nscopes)
@@ -425,7 +454,7 @@ class Gen:
                             ins.append(u(t))
                         outs.append(u(t))
             if r.random() < 0.5:
-                ins += self.gen_params(None, r.choice([0, 1]))
+                ins += self.gen_params(None, r.choice([0, 1]), scope=scope)
             if r.random() < 0.4:
                 outs.append(u(0))
             fid = self.new_fn(ins, outs)
@@ -434,15 +463,24 @@ class Gen:
     def op_invoke(self):
         r = self.r
         scope = r.randrange(0, self.nscopes)
+        # prefer scopes from which something resolvable is visible
+        if self.resolvable and r.random() < 0.7:
+            good = [s for s in range(self.nscopes) if any(sc in self.anc(s) for (sc, _, _) in self.resolvable)]
+            if good:
+                scope = r.choice(good)
         if self.invokers and self.p("reinvoke"):
-            fid = r.choice(self.invokers)
+            fid, home = r.choice(self.invokers)
+            if r.random() < 0.6:
+                # same scope or one of its descendants: everything visible before is still visible
+                below = [s for s in range(self.nscopes) if home in self.anc(s)]
+                scope = r.choice(below)
         elif self.p("malformed") and r.random() < 0.4:
             fid = self.malformed_fn()
         else:
-            ins = self.gen_params(None, r.choice([1, 1, 2, 3]))
+            ins = self.gen_params(None, r.choice([1, 1, 2, 3]), scope=scope)
             outs = r.choice([[], [], [u(0)], [u(10), u(0)], [u(0), u(10)]])
             fid = self.new_fn(ins, outs)
-            self.invokers.append(fid)
+            self.invokers.append((fid, scope))
         self.ops.append({"op": "invoke", "scope": scope, "fn": fid, "info": r.random() < 0.5})
 
     def program(self):
@@ -451,12 +489,21 @@ class Gen:
         nops = r.randrange(4, self.w["max_ops"] + 1)
         # optionally start with a few scopes so that registrations land in a tree
         for _ in range(r.choice([0, 0, 1, 2])):
-            self.ops.append({"op": "scope", "parent": r.randrange(0, self.nscopes)})
+            par = r.randrange(0, self.nscopes)
+            self.ops.append({"op": "scope", "parent": par})
+            self.parents.append(par)
             self.nscopes += 1
+        # a few registrations first, so that later consumers have something to consume
+        for _ in range(r.choice([0, 2, 3, 4, 5])):
+            self.op_provide()
         while len(self.ops) < nops:
             c = r.random()
+            if not self.resolvable and r.random() < 0.8:
+                c = 1.0
             if c < self.w["scope"] and self.nscopes < self.w["max_scopes"]:
-                self.ops.append({"op": "scope", "parent": r.randrange(0, self.nscopes)})
+                par = r.randrange(0, self.nscopes)
+                self.ops.append({"op": "scope", "parent": par})
+                self.parents.append(par)
                 self.nscopes += 1
             elif c < self.w["scope"] + self.w["decorate"]:
                 self.op_decorate()
@@ -471,8 +518,8 @@ class Gen:
                 self.op_provide()
         # closing sweep: invoke something from every scope
         for s in range(self.nscopes):
-            if r.random() < 0.6:
-                self.ops.append({"op": "invoke", "scope": s, "fn": r.choice(self.invokers) if self.invokers else self.new_fn(self.gen_params(None, 1), []), "info": False})
+            if r.random() < 0.35:
+                self.ops.append({"op": "invoke", "scope": s, "fn": r.choice(self.invokers)[0] if self.invokers else self.new_fn(self.gen_params(None, 1), []), "info": False})
         return {"kind": "prog", "cfg": cfg, "types": TYPES, "fns": self.fns, "script": self.script, "ops": self.ops}
 
 
